@@ -92,6 +92,8 @@ type Scenario struct {
 	Threshold   int64  `json:"threshold"` // future threshold in ns, 0 = off
 	EventDriven bool   `json:"event_driven"`
 	Steps       []Step `json:"steps"`
+	// ServerName: the cache is created with cache.WithServerName (exported as meta/serverName of every target).
+	ServerName string `json:"server_name,omitempty"`
 }
 
 func targetName(i int) string { return fmt.Sprintf("t%d", i) }
@@ -111,7 +113,7 @@ type profile struct {
 
 var profiles = map[string]profile{
 	"C02": {minTargets: 1, maxTargets: 2, threshold: true, maxSteps: 40,
-		weights: map[string]int{"noti": 24, "reset": 1, "add": 1, "remove": 1, "sync": 1}},
+		weights: map[string]int{"noti": 24, "reset": 1, "add": 1, "remove": 1, "sync": 1, "connect": 1, "connecterr": 1, "updmeta": 1}},
 	"C03": {minTargets: 1, maxTargets: 3, threshold: true, maxSteps: 40,
 		weights: map[string]int{"noti": 20, "reset": 2, "remove": 1, "add": 1, "sync": 1, "connect": 1, "connecterr": 1, "updmeta": 1}},
 	"C14": {minTargets: 2, maxTargets: 4, maxSteps: 40, small: true,
@@ -395,6 +397,9 @@ func genScenario(prop string) func(t *rapid.T) *Scenario {
 			// small thresholds around which the timestamps are generated, and thresholds that mean "never reject"
 			// (time.Duration(math.MaxInt64), centuries): every sum of a threshold and a timestamp wraps
 			sc.Threshold = rapid.SampledFrom([]int64{5, 20, 100, 5, 20, 100, math.MaxInt64, math.MaxInt64 - 1, 1 << 62, 290 * 365 * 24 * 3600 * 1_000_000_000}).Draw(t, "thr")
+		}
+		if prop != "C02" {
+			sc.ServerName = rapid.SampledFrom([]string{"", "", "collector-1"}).Draw(t, "server-name")
 		}
 		sc.Steps = rapid.SliceOfN(rapid.Custom(genStep(pr, sc.Targets, sc.Threshold)), 1, pr.maxSteps).Draw(t, "steps")
 		if len(sc.Steps) < 12 && rapid.IntRange(0, 3).Draw(t, "longer") > 0 {
